@@ -12,11 +12,27 @@ import (
 func TestVerifJumpEmit(t *testing.T) {
 	w := jgen.Open()
 	defer w.Close()
+	// every emission is judged twice: at once, and again after the NEXT emission (a patch keeps the returned
+	// bytes and writes them later - Guard.Apply / Restore - so they must not change when another jump is emitted)
+	var prevA uint64
+	var prev []byte
 	for _, a := range jgen.Addrs() {
-		w.Emit("amd64", "entry", 0x401000, a, jmpToFunctionValue(0x401000, uintptr(a)))
+		cur := jmpToFunctionValue(0x401000, uintptr(a))
+		w.Emit("amd64", "entry", 0x401000, a, cur)
+		if prev != nil {
+			w.Emit("amd64", "entry", 0x401000, prevA, prev)
+		}
+		prevA, prev = a, cur
 	}
+	var prevP [2]uint64
+	prev = nil
 	for _, p := range jgen.Pairs() {
-		w.Emit("amd64", "origin", p[0], p[1], jmpToOriginFunctionValue(uintptr(p[0]), uintptr(p[1])))
+		cur := jmpToOriginFunctionValue(uintptr(p[0]), uintptr(p[1]))
+		w.Emit("amd64", "origin", p[0], p[1], cur)
+		if prev != nil {
+			w.Emit("amd64", "origin", prevP[0], prevP[1], prev)
+		}
+		prevP, prev = p, cur
 	}
 	t.Logf("events=%d", w.N)
 }
